@@ -284,6 +284,32 @@ func (g *genState) genMutating(kind string, file string) Op {
 		}
 	case "start", "stop", "switch":
 		g.dateArgs(a, st, r.Chance(1, 3))
+		if kind != "start" && r.Chance(3, 4) {
+			// steer towards a record that has an open range
+			var open []int
+			for i := range st {
+				if st[i].openIndex() != -1 {
+					open = append(open, i)
+				}
+			}
+			if len(open) > 0 {
+				rec := st[open[r.Intn(len(open))]]
+				*a = OpArgs{}
+				switch rec.key() {
+				case dateKey(clk.ty, clk.tm, clk.td):
+					a.DateSel = r.Pick([]string{"", "", "today"})
+				case dateKey(addDays(clk.ty, clk.tm, clk.td, -1)):
+					a.DateSel = r.Pick([]string{"yesterday", "yesterday", ""})
+				case dateKey(addDays(clk.ty, clk.tm, clk.td, 1)):
+					a.DateSel = "tomorrow"
+				}
+				if a.DateSel == "" && rec.key() != dateKey(clk.ty, clk.tm, clk.td) || r.Chance(1, 4) {
+					a.DateSel = "explicit"
+					a.DY, a.DM, a.DD = rec.Y, rec.M, rec.D
+					a.Date = fmtDate(a.DY, a.DM, a.DD, r.Chance(1, 4))
+				}
+			}
+		}
 		y, m, d := clk.targetDate(a)
 		far := a.DateSel == "explicit" && dateKey(y, m, d) != dateKey(clk.ty, clk.tm, clk.td)
 		explicit := r.Chance(2, 5)
